@@ -51,6 +51,19 @@ def enumerated(tier, seed):
         cases.append({"kind": "QQ", "n": n})
     for n in range(2, 6 if q else 7):
         cases.append({"kind": "refcheck", "n": n})
+    # vertex subsets that induce a regular but DISCONNECTED subgraph (disjoint cycles whose only links run through
+    # vertices left out of the subset): the count is 0 for every k
+    tri = lambda a, b, c: [[a, b], [b, c], [c, a]]
+    sq = lambda a, b, c, d: [[a, b], [b, c], [c, d], [d, a]]
+    for nodes, edges, hub in (
+            (list(range(7)), tri(0, 1, 2) + tri(3, 4, 5) + [[6, 0], [6, 3]], 6),
+            (list(range(8)), tri(0, 1, 2) + sq(3, 4, 5, 6) + [[7, 1], [7, 5]], 7),
+            (["a", "b", "c", "d", "e", "f", "g", "h", "hub"], sq("a", "b", "c", "d") + sq("e", "f", "g", "h") + [["hub", "a"], ["hub", "e"]], "hub"),
+            (list(range(10)), tri(0, 1, 2) + tri(3, 4, 5) + tri(6, 7, 8) + [[9, 0], [9, 3], [9, 6]], 9),
+            (list(range(5)), [[0, 1], [2, 3], [4, 0], [4, 2]], 4)):
+        rest = [v for v in nodes if v != hub]
+        cases.append({"kind": "counter", "n": len(nodes), "edges": edges, "nodes": nodes, "focal": rest[0], "ak": rest[1:]})
+        cases.append({"kind": "counter", "n": len(nodes), "edges": edges, "nodes": nodes, "focal": rest[-1], "ak": rest[:-1]})
     return cases
 
 
